@@ -64,6 +64,12 @@ func main() {
 		for _, e := range eng.parseErrors {
 			fmt.Println("PARSE ERROR:", e)
 		}
+	case "ssa":
+		eng, err := loadEngine(repo)
+		if err != nil {
+			panic(err)
+		}
+		debugFn(eng, os.Args[2])
 	case "replay":
 		os.Exit(runReplay(repo, os.Args[2]))
 	default:
@@ -111,7 +117,7 @@ func runDump(repo, key, mode string) int {
 		fmt.Printf("%-8s %-14s %6.2fs %s %v\n", o.Result, o.Solver, o.Seconds, o.Name, o.Props)
 		if (o.Result != "unsat" && !o.Cover) || (o.Cover && o.Result == "unsat") {
 			if os.Getenv("VCGO_SMT") != "" {
-				fmt.Println(o.SMT(true))
+				fmt.Println(o.smtText)
 			}
 			if o.Model != "" {
 				fmt.Println(firstLines(o.Model, 60))
@@ -252,7 +258,7 @@ func runCheck(repo, id, tier string) int {
 	}
 
 	// ---- generate obligations -----------------------------------------------------------
-	var obls []*Obligation
+	var obls, trivial []*Obligation
 	var reports []*FuncReport
 	assumptions := map[string]bool{}
 	funcsUnder := map[string]bool{}
@@ -272,6 +278,11 @@ func runCheck(repo, id, tier string) int {
 		for _, o := range vc.obls {
 			if hasProp(o.Props, id) {
 				obls = append(obls, o)
+			}
+		}
+		for _, o := range vc.trivial {
+			if hasProp(o.Props, id) {
+				trivial = append(trivial, o)
 			}
 		}
 	}
@@ -343,6 +354,17 @@ func runCheck(repo, id, tier string) int {
 		nObl++
 		fail("contracts#parse", "contract file error", e, "", false)
 	}
+	seenTrivial := map[string]bool{}
+	for _, o := range trivial {
+		if seenTrivial[o.Name] {
+			continue
+		}
+		seenTrivial[o.Name] = true
+		nObl++
+		nDis++
+		bySolver[o.Solver]++
+		records = append(records, oblRecord{o.Name, o.Kind, o.Mode, "unsat", o.Solver, 0, o.Props})
+	}
 	coverByFunc := map[string][]string{}
 	for _, o := range obls {
 		solverTime += o.Seconds
@@ -372,7 +394,7 @@ func runCheck(repo, id, tier string) int {
 				detail += "\nreplay: " + rr.text
 			}
 		}
-		fail(o.Name, "obligation not discharged: "+o.Result, detail, o.SMT(true), hasModel)
+		fail(o.Name, "obligation not discharged: "+o.Result, detail, o.smtText, hasModel)
 	}
 	// vacuity: a function whose every cover query is unsat has contradictory assumptions
 	for f, rs := range coverByFunc {
